@@ -1,6 +1,6 @@
 CONSTANTS
   N = 2
-  MaxTasks = 3
+  MaxTasks = 2
   G = 2
   Stops = 1
   Dev = {}
